@@ -115,7 +115,7 @@ theorem C01_accepts (ob op : Opts) (Ω : Oracles) (ver : String) (vid : Nat) (hv
         unmarshal H op Ω ⟨marshal (bs ver) r.hdr r.block.raw ++ tail, fault⟩ = ⟨some r', 0, [], none, tail⟩) ∧
       r'.hdr = r.hdr ∧ r'.block.raw = r.block.raw ∧ r.block.raw = content ∧ r'.rt = r.rt ∧ r'.verTxt = r.verTxt ∧ r'.verId = r.verId := by
   unfold build at hrec herr
-  simp only [M.bind_def] at hrec herr
+  simp only at hrec herr
   generalize hh1 : (if (ob.addMissingRecordId && !hdr.has (bs "WARC-Record-ID")) = true then hdr.setId (bs "WARC-Record-ID") newId else hdr) = hdr1 at hrec herr
   have hnoBD1 : hdr1.has (bs "WARC-Block-Digest") = false := by
     rw [← hh1]; split
@@ -134,7 +134,9 @@ theorem C01_accepts (ob op : Opts) (Ω : Oracles) (ver : String) (vid : Nat) (hv
     rw [← hh2]; split
     · unfold setInt; rw [has_set_other _ _ _ _ (by decide)]; exact hnoPD1
     · exact hnoPD1
-  -- the three stages of the builder
+  -- the stages of the builder
+  unfold buildBody at hrec herr
+  simp only [M.bind_def] at hrec herr
   cases hv : validateHeader ob Ω vid ⟨hdr2, []⟩ with
   | mk rv sv =>
   rw [hv] at hrec herr
@@ -151,14 +153,7 @@ theorem C01_accepts (ob op : Opts) (Ω : Oracles) (ver : String) (vid : Nat) (hv
   cases rp with
   | error e => simp at herr
   | ok b =>
-  simp only at hrec herr
-  cases hvd : validateDigest H ob rt b false sp with
-  | mk rd sd =>
-  rw [hvd] at hrec herr
-  cases rd with
-  | error e => simp at herr
-  | ok u =>
-  simp only [M.hdr_def, M.pure_def, Option.some.injEq] at hrec
+  simp only [M.hdr_def, M.setHdr_def] at hrec herr
   -- builder facts
   obtain ⟨bd0, pd0, hbd0, hpd0⟩ := parseBlock_needs_digests ob Ω rt content false sv sp b hpb
   obtain ⟨hsp, hraw, ⟨bd0', pd0', hbd0', hpd0', hbdig, hpdig⟩, _⟩ :=
@@ -167,7 +162,20 @@ theorem C01_accepts (ob op : Opts) (Ω : Oracles) (ver : String) (vid : Nat) (hv
   simp only [Option.some.injEq] at hbd0' hpd0'
   subst hbd0'; subst hpd0'
   subst hsp
+  -- under the strict policy the block is the content as given: the builder has no length to adjust
+  have hcond : (ob.addMissingContentLength && !hdr1.has (bs "Content-Length") && b.kind == BlockKind.warcFields && b.raw.length != content.length) = false := by
+    rw [hraw]; simp
+  simp only [hcond, Bool.false_eq_true, ↓reduceIte] at hrec herr
+  have hsp_eta : ({ hdr := sp.hdr, fnd := sp.fnd } : St) = sp := rfl
+  rw [hsp_eta] at hrec herr
   subst hraw
+  cases hvd : validateDigest H ob rt b false sp with
+  | mk rd sd =>
+  rw [hvd] at hrec herr
+  cases rd with
+  | error e => simp at herr
+  | ok u =>
+  simp only [M.hdr_def, M.pure_def, Option.some.injEq] at hrec
   rw [hsvh] at hbd0 hpd0
   -- the default digests of the builder
   have hbdef : newDigest ob.defaultAlg ob.defaultEnc = some bd0 := by
